@@ -757,7 +757,8 @@ impl World {
 // scenario = sequential prefix (reg / adv / purge) that builds a pre-state, then 2..4 updates (`register`,
 // `remove_expired`, all at the same instant T) started together from different threads, with reader threads that
 // take atomic snapshots (`verif_snapshot` = one `ArcSwap::load`) and single verdicts (`has_authorization`) meanwhile.
-// ORACLE (linearisability, computed by the Lean model driver for every order of the updates, shared prefixes):
+// ORACLE (linearisability: every order of the updates run sequentially on a fresh real registry; these sequential
+// results are compared with the Lean model driver's for every order - correspondence):
 //   * final registry state + verdicts at T + each update's return value = those of ONE sequential order;
 //   * every snapshot a reader saw = the state after some prefix of some order; every single verdict occurs there;
 //   * the registry invariants on the final state; the ballast entries (only there to make the copy in
@@ -1017,7 +1018,8 @@ fn linearisations_impl(sc: &Scenario) -> Lin {
     for order in all {
         let sub = Scenario { prefix: sc.prefix.clone(), ops: sc.ops.clone() };
         let o = conc_round(&sub, 0, 0, Some(&order));
-        if let Ok((core, auth)) = conc_core(&o.fin, o.base, o.now, 0) {
+        if let Ok((core, _)) = conc_core(&o.fin, o.base, o.now, 0) {
+            let auth = o.fin_verdicts.clone();
             lin.nodes.insert((core.clone(), auth.clone()));
             if order.len() == sc.ops.len() {
                 lin.leaves.entry((core, auth, o.rets.clone())).or_insert(order);
@@ -1034,26 +1036,26 @@ struct ConcStats {
 /// run `reps` schedules of one scenario against the linearisability oracle
 fn conc_scenario(sc: &Scenario, reps: usize, ballast: usize, kind: &str, lean: &mut Lean, rep: &mut Report, st: &mut ConcStats) {
     let line = sc.line();
-    let lin = if lean.enabled {
+    // the oracle for the concurrent rounds is the implementation's OWN sequential behaviour (every order of the updates
+    // executed one after the other on a fresh real registry): linearisability proper. That these sequential results
+    // are the model's – so that the sequential theorems speak about them – is checked separately (correspondence).
+    let lin = linearisations_impl(sc);
+    if lean.enabled {
         match linearisations(sc, lean) {
-            Ok(l) => l,
+            Ok(lm) => {
+                if !lm.leaves.keys().eq(lin.leaves.keys()) || lm.nodes != lin.nodes {
+                    rep.disagree(
+                        "conc-sequential",
+                        json!({"line": line}),
+                        &format!("{:?}", lin.leaves.iter().map(|((c, a, r), o)| format!("order {o:?}: {c} auth={a} returns={r:?}")).collect::<Vec<_>>()),
+                        &format!("{:?}", lm.leaves.iter().map(|((c, a, r), o)| format!("order {o:?}: {c} auth={a} returns={r:?}")).collect::<Vec<_>>()),
+                    );
+                }
+            }
             Err(e) => {
                 rep.disagree("conc", json!({"line": line}), "-", &e);
                 return;
             }
-        }
-    } else {
-        linearisations_impl(sc)
-    };
-    // the model's sequential results must be those of the implementation run sequentially (correspondence)
-    if lean.enabled {
-        let order: Vec<usize> = (0..sc.ops.len()).collect();
-        let o = conc_round(sc, 0, 0, Some(&order));
-        let imp = conc_core(&o.fin, o.base, o.now, 0).map(|(c, _)| (c, o.fin_verdicts.clone(), o.rets.clone()));
-        match imp {
-            // (the order 0,1,.. is the first leaf of the DFS, so it is the order recorded for its result)
-            Ok(key) if lin.leaves.get(&key) == Some(&order) => {}
-            other => rep.disagree("conc-sequential", json!({"line": line}), &format!("{other:?}"), &format!("{:?}", lin.leaves.keys().collect::<Vec<_>>())),
         }
     }
     let distinct_finals: std::collections::HashSet<(&String, &String)> = lin.leaves.keys().map(|(c, a, _)| (c, a)).collect();
